@@ -874,7 +874,7 @@ func builderFieldWriters(c *Ctx, g *load.G) {
 			fmt.Sprintf("the field is read %d times but no store can give it a non-zero value (stores: %v): every reader sees the zero value, whatever the grammar or the flags say", reads[v], writes[v]))
 	}
 	_ = n
-	r.MinRule("C04-h", 10)
+	r.MinRule("C04-h", 6)
 }
 
 // builderWriteFunc (C04-j): parameter list and argument list of an emitted method (see writeFuncSemantics).
